@@ -54,6 +54,10 @@ def gen_spec(rng):
         if len(props) >= 2 and rng.random() < 0.5:
             a, b = rng.sample(props, 2)
             kind = rng.choice(['name', 'description', 'container'])
+            have = [x['kind'] for x in rels if x['kind'] in ('name', 'description', 'container')]
+            if have and rng.random() < 0.6:
+                # a second relation of a kind the event type already has (while relations of other kinds exist as well)
+                kind = rng.choice(have)
             if not any((x['kind'], x['source'], x['target']) == (kind, a['name'], b['name']) for x in rels):
                 later.append({'kind': kind, 'source': a['name'], 'target': b['name']})
         ets.append({'name': 't%d' % t, 'props': props, 'rels': rels, 'names': names, 'later': later})
@@ -250,6 +254,18 @@ class C20(Property):
             c = {'spec': spec, 'order': order, 'min_conf': rng.choice(MIN_CONF), 'max_depth': rng.choice(MAX_DEPTH)}
             if order and rng.random() < 0.5:
                 c['upgrade_at'] = rng.randrange(len(order))
+            if i % 10 == 4:
+                # an event type that has relations of two kinds gains a second relation of the first kind in mid stream
+                et = {'name': 't0', 'names': ['p0', 'p1', 'p2', 'p3'],
+                      'props': [{'name': 'p%d' % k, 'ot': OTYPES[k % len(OTYPES)], 'confidence': 10, 'assocs': [], 'multivalued': False}
+                                for k in range(4)],
+                      'rels': [{'kind': 'container', 'source': 'p0', 'target': 'p1', 'confidence': 10},
+                               {'kind': rng.choice(['name', 'description']), 'source': 'p2', 'target': 'p3', 'confidence': 10}],
+                      'later': [{'kind': 'container', 'source': 'p2', 'target': 'p1'}]}
+                evs = [{'type': 't0', 'source': '/s/', 'props': [['p%d' % k, [rng.choice(VALUES)]] for k in range(4)]}
+                       for _ in range(rng.randint(2, 4))]
+                c = {'spec': {'ets': [et], 'events': evs}, 'order': list(range(len(evs))), 'min_conf': rng.choice(MIN_CONF),
+                     'max_depth': rng.choice(MAX_DEPTH), 'upgrade_at': 1}
             if i % 10 == 9:
                 # cases of their own for the known finding (titles after a JSON round trip), so that it cannot hide anything
                 c['title_probe'] = True
